@@ -1,7 +1,7 @@
 \* run with -workers 1; the library under the known deviation C18/obj-cid-dropped
 SPECIFICATION TSpec
 CONSTANTS
-  N <- TraceN
+  N = 64
   Pid <- TracePid
   MaxCtx = 0
   MaxLog = 0
@@ -11,5 +11,6 @@ CONSTANTS
   AtomicNew = TRUE
   AtomicLine = TRUE
   ObjCid = FALSE
+  Sink <- KeepLast
 POSTCONDITION Accepted
 CHECK_DEADLOCK FALSE
